@@ -27,8 +27,13 @@ func (l *LQueue[T]) Enqueue(item T) {
 	l.mu.Lock()
 	defer l.mu.Unlock()
 
+	if l.n == 0 {
+		// The list cannot be empty: reuse its placeholder head node.
+		l.list = list.InitDList(item)
+	} else {
+		l.list.Append(item)
+	}
 	l.n++
-	l.list.Append(item)
 }
 
 // Dequeue retrieves and removes the first element from the queue.
@@ -37,6 +42,9 @@ func (l *LQueue[T]) Dequeue() (item T) {
 	l.mu.Lock()
 	defer l.mu.Unlock()
 
+	if l.n == 0 {
+		return
+	}
 	node := l.list.Shift()
 	l.n--
 	return l.list.Val(node)
@@ -47,6 +55,10 @@ func (l *LQueue[T]) Peek() T {
 	l.mu.RLock()
 	defer l.mu.RUnlock()
 
+	if l.n == 0 {
+		var t T
+		return t
+	}
 	return l.list.First()
 }
 
@@ -55,6 +67,9 @@ func (l *LQueue[T]) Search(item T) bool {
 	l.mu.Lock()
 	defer l.mu.Unlock()
 
+	if l.n == 0 {
+		return false
+	}
 	if _, ok := l.list.Find(item); ok {
 		return true
 	}
